@@ -1289,15 +1289,15 @@ func corpusFiles() map[string][]string {
 	dig := func(cid string) string { return digLine(mkContent(cid)) }
 	def := "conf sha256 sha1,sha256,blake3"
 	return map[string][]string{
-		"known-filegroup-unchanged-skips-hash-check.ops": {
-			"# filegroup: calculateAndCheckRuleHash sits inside `if changed` (build_step.go, filegroup branch of buildTarget)",
+		"fixed-filegroup-unchanged-skips-hash-check.ops": {
+			"# FIXED (/repo 2c4e62b): the filegroup check used to sit inside `if changed`; every build below must now verify",
 			"reset", def, "cache 0", dig("Ga"), dig("Gb"),
 			"def t0 G 0 Ga " + hl(h("sha256", "Ga")), "build t0",
-			"# the declared value is edited to a near miss: links unchanged -> no verification -> plz build succeeds",
+			"# the declared value is edited to a near miss: links unchanged, the build must fail all the same",
 			"def t0 G 0 Ga " + hl(flipFirst(h("sha256", "Ga"))), "build t0",
 			"# a clean build of the same state fails",
 			"wipe", "build t0",
-			"# the source is overwritten in place (same inode as the link in plz-out): new content is never verified",
+			"# the source is overwritten in place (same inode as the link in plz-out): the new content must be verified",
 			"def t0 G 1 Ga " + hl(h("sha256", "Ga")), "build t0", "inplace t0 Gb", "build t0",
 		},
 		"known-hashcheckers-change-not-reverified.ops": {
